@@ -34,10 +34,10 @@ MACHINES = {
 
 # runs per tier (override with VERIF_RUNS) and wall-clock safety caps
 TIERS = {
-    "C08": {"quick": (3000, 240), "thorough": (160000, 3000)},
-    "C13": {"quick": (3000, 240), "thorough": (160000, 3000)},
+    "C08": {"quick": (4000, 240), "thorough": (160000, 3000)},
+    "C13": {"quick": (10000, 240), "thorough": (400000, 3000)},
     "C15": {"quick": (2000, 240), "thorough": (100000, 3000)},
-    "C16": {"quick": (3000, 240), "thorough": (160000, 3000)},
+    "C16": {"quick": (12000, 240), "thorough": (600000, 3000)},
     "C14": {"quick": (1000, 300), "thorough": (100000, 3600)},
 }
 
